@@ -8,9 +8,15 @@
 #include <exception>
 #include <dlfcn.h>
 
-static std::vector<uint64_t> vec;
-static size_t pos = 0;
-static int failed = 0;
+#ifdef VP_THREADS
+#include <thread>
+#define VP_TLS thread_local
+#else
+#define VP_TLS
+#endif
+static std::vector<uint64_t> vec;          // written before the threads start, read-only afterwards
+static VP_TLS size_t pos = 0;
+static VP_TLS int failed = 0;
 
 extern "C" {
    uint64_t nondet_ulong(void) { return pos < vec.size() ? vec[pos++] : (pos++, 0); }
@@ -20,6 +26,7 @@ extern "C" {
    void vp_observe(uint64_t tag, uint64_t v) { std::printf("OBSERVE %llu %llu\n", (unsigned long long)tag, (unsigned long long)v); }
    void vp_done(void) { std::printf("DONE\n"); }
    void vp_mark(void) { }
+   void vp_phase(int) { }
    void vp_leakcheck(void) { std::printf("ASSERT 9000 ok\n"); }      // the accounting itself is LeakSanitizer's (replay build)
 }
 
@@ -33,10 +40,23 @@ int main(int argc, char** argv)
    }
    auto fn = reinterpret_cast<void (*)()>(dlsym(RTLD_DEFAULT, argv[1]));
    if (!fn) { std::fprintf(stderr, "no entry %s\n", argv[1]); return 2; }
-   try { fn(); }
-   catch (const std::logic_error&) { std::printf("UNCAUGHT logic_error\n"); failed = 1; }
-   catch (const std::exception&) { std::printf("UNCAUGHT std::exception\n"); failed = 1; }
-   catch (...) { std::printf("UNCAUGHT other\n"); failed = 1; }
+   auto run = [fn]() -> int {
+      try { fn(); }
+      catch (const std::logic_error&) { std::printf("UNCAUGHT logic_error\n"); failed = 1; }
+      catch (const std::exception&) { std::printf("UNCAUGHT std::exception\n"); failed = 1; }
+      catch (...) { std::printf("UNCAUGHT other\n"); failed = 1; }
+      return failed;
+   };
+#ifdef VP_THREADS
+   // C20 replay: the same construction program on two threads, each with its own Lexicons, under ThreadSanitizer
+   int r1 = 0, r2 = 0;
+   std::thread t1([&] { r1 = run(); }), t2([&] { r2 = run(); });
+   t1.join(); t2.join();
    std::fflush(stdout);
-   return failed ? 1 : 0;
+   return (r1 || r2) ? 1 : 0;
+#else
+   int r = run();
+   std::fflush(stdout);
+   return r ? 1 : 0;
+#endif
 }
